@@ -372,6 +372,9 @@ def call_method(eng, st, bm, args, kwargs, line=0):
             vd = eng.deref(st, v)
             if isinstance(vd, ListV) and not obj.concrete():
                 v = vd  # nested lists are kept by value (the inner list is not aliased elsewhere)
+            elif isinstance(vd, ArrV) and not obj.concrete() and (obj.etype or "").startswith("list[") and len(vd.shape) == 1:
+                # a 1-D array appended to a list declared list[list[T]]: kept by value as its element sequence
+                v = ListV(n=vd.shape[0], fn=lambda k, vd=vd: vd.fn((k,)), etype=obj.etype[5:-1])
             st.heap[bm.obj.loc] = obj.append(v)
             return None
         if name == "extend" and obj.concrete():
